@@ -154,7 +154,7 @@ def cargo_check(d, mods, timeout=1500):
         m = re.match(r"^(?:src/|/)(\S+?):\d+:\d+: error(?:\[(E\d+)\])?: (.*)$", ln)
         if m:
             path = m.group(1)
-            mod = path.split("/")[0] if not ln.startswith("/") else next((x for x in path.split("/") if re.match(r"^[acdwqs]\d+", x)), path)
+            mod = path.split("/")[0] if not ln.startswith("/") else next((x for x in path.split("/") if re.match(r"^[abcdwqs]\d+", x)), path)
             errs.append((mod, m.group(2) or "syntax", m.group(3)[:300]))
         elif ln.startswith("error") and "could not compile" not in ln and "aborting" not in ln:
             errs.append(("?", "error", ln[:300]))
@@ -396,6 +396,9 @@ def gen_docs(rng, tier):
     # position x the other features of the same item
     for i, (name, files, entry) in enumerate(bldgen.annotation_docs()):
         docs.append(dict(id="a%d" % i, kind="thrift", doc=None, files=files, entry=entry, directed=name))
+    # directed protobuf documents (keywords in every name position, packages, imports through every carrier, oneofs, nested types, maps)
+    for i, (name, files, entry) in enumerate(bldgen.proto_sweep_docs()):
+        docs.append(dict(id="b%d" % i, kind="pb", doc=None, files=files, entry=entry, directed=name))
     for i in range(n_th):
         r = random.Random(rng.randrange(1 << 30))
         doc = bldgen.gen_thrift_doc(r, exotic=r.choice([0.3, 0.6, 0.9]), union_cycles=0.08, path_kw_pairs=0.05, arc_btree_edges=0.08, btree_double=0.3)
@@ -626,6 +629,13 @@ def run(chk, replay=None):
         bres = list(ex.map(build_clean, clean))
     # ---- the AutoDerive model on the item graph each run dumped (Derive.v through the runner)
     dumps = {}
+    helper_pred = {}
+    _conv_cache = {}
+
+    def conv_struct(n):
+        if n not in _conv_cache:
+            _conv_cache[n] = core.run_lines(hb, ["conv struct " + n], shards=1, args=("lines",))[0]
+        return _conv_cache[n]
     for (di, d, c, _) in clean:
         m = "%sc%s" % (d["id"], cfg_id(c))
         dd = read_derive_dump(os.path.join(WORK, "dd", m + ".txt"))
@@ -638,7 +648,7 @@ def run(chk, replay=None):
     dist = dict(documents=len(docs), thrift=sum(1 for d in docs if d["kind"] == "thrift"), protobuf=sum(1 for d in docs if d["kind"] == "pb"), configurations={cfg_id(c): 0 for c in CONFIGS},
                 builder_runs=0, builder_failures=0, compiled_modules=0, emitted_lines=0, quarantined_runs=len(quarantined),
                 known_class_counts={}, items_per_doc=[d["doc"].size() for _, d in th_docs], files_per_doc=[len(d["files"]) for d in docs],
-                struct_blocks_compared=0, box_decisions_compared=0, derive_graphs=0, derive_items_compared=0, derive_items_not_found=0,
+                struct_blocks_compared=0, box_decisions_compared=0, derive_graphs=0, derive_items_compared=0, derive_items_not_found=0, service_helper_sets_compared=0,
                 derive_decisions=dict(po_yes=0, po_no=0, heo_yes=0, heo_no=0, delayed=0), derive_model_inconsistent=0)
     for (di, d, c, _), b in zip(clean, bres):
         m = "%sc%s" % (d["id"], cfg_id(c))
@@ -668,6 +678,38 @@ def run(chk, replay=None):
         modinfo[m] = (di, d, c)
         dist["emitted_lines"] += txt.count("\n")
         # ---- derive decisions: model (on the dumped item graph) vs attributes in the emitted text
+        # ---- helper items of services: Effective.v (names from the functions' effective names) vs the items the builder created
+        if m in dumps and d["kind"] == "thrift" and d.get("doc") is not None:
+            have = {name for _, _, name, _ in dumps[m][1]}
+            for fi, f in enumerate(d["doc"].files):
+                svcs = [it for it in f["items"] if it["kind"] == "service"]
+                if not svcs:
+                    continue
+                key = (di, fi)
+                if key not in helper_pred:
+                    camel = lambda n: conv_struct(n)
+                    forms = [camel(sv["name"]) for sv in svcs]
+                    lines_h = []
+                    for sv in svcs:
+                        sname = sv["name"] if forms.count(camel(sv["name"])) > 1 else camel(sv["name"])
+                        fns = []
+                        for mt in sv["methods"]:
+                            tag = dict(mt.get("annos") or []).get("pilota.name")
+                            fns.append("%s:%s:%s:%d" % (mt["name"], camel(mt["name"]) + ("/" + camel(tag) if tag else ""), tag or "-", 1 if mt.get("throws") else 0))
+                        lines_h.append("helpers %s %s" % (sname, " ".join(fns)) if fns else None)
+                    ans = core.run_lines(runner, [l for l in lines_h if l], shards=1) if any(lines_h) else []
+                    it_ans = iter(ans)
+                    helper_pred[key] = [(sv["name"], next(it_ans) if l else "") for sv, l in zip(svcs, lines_h)]
+                for svname, a in helper_pred[key]:
+                    pred = {x for part in a.split(" ") if part for x in part.split("|")[0].split(",") if x}
+                    found = pred & have
+                    if not pred or not found:
+                        continue            # the service is not generated in this run (ignore_unused) or has no functions
+                    dist["service_helper_sets_compared"] += 1
+                    if found != pred:
+                        mism.append(dict(case="%s %s helper items of service %s" % (d["id"], cfg_id(c), svname), model_output=sorted(pred - have),
+                                         impl_output="items created: " + ", ".join(sorted(x for x in have if x.startswith(svname[:1].upper()))[:12]),
+                                         correspondence="helper items (Effective.helper_items vs the items of the builder's dump)", files=d["files"], cfg=c))
         if dm is not None and c["mode"] == "single":
             scraped = scrape_derives(txt)
             want = {}
@@ -787,7 +829,7 @@ def run(chk, replay=None):
     dist["witnesses_not_reproduced"] = not_reproduced
     chk.cov["distribution"] = dist
     chk.cov["programs"] = dist["compiled_modules"] + min(len(quarantined), qlimit) + len(wit)
-    chk.cov["disagreements_checked"] = len(lines) + n_emit + dist["struct_blocks_compared"] + dist["box_decisions_compared"] + dist["derive_items_compared"]
+    chk.cov["disagreements_checked"] = len(lines) + n_emit + dist["struct_blocks_compared"] + dist["box_decisions_compared"] + dist["derive_items_compared"] + dist["service_helper_sets_compared"]
     chk.cov["model_impl_mismatches"] = len(mism)
     for d in docs[:2]:
         chk.sample(dict(id=d["id"], kind=d["kind"], configs=[cfg_id(c) for c in d["cfgs"]], text=list(d["files"].values())[0][:600]))
